@@ -58,6 +58,9 @@ type loopInfo struct {
 
 // Enc is the per-function encoder.
 type Enc struct {
+	frozenNames map[string]bool
+	debugSeen map[*ssa.DebugRef]int // execution order of the DebugRef instructions processed so far
+	debugSeq  int
 	nfTaint map[string]Term // constant name -> condition under which its value may be non-finite (Inf/NaN)
 	privateChans []Term // channels made here (or captured write-once) that only this function and its closures receive from / close
 	fvConst map[string]Term // address term of a write-once captured variable -> its value
